@@ -7,6 +7,7 @@ require (
 	github.com/hashicorp/raft v1.7.3
 	github.com/mattn/go-sqlite3 v1.14.47
 	github.com/rqlite/rqlite/v10 v10.0.0
+	google.golang.org/protobuf v1.36.11
 )
 
 require (
@@ -25,7 +26,6 @@ require (
 	github.com/rqlite/sql v0.0.0-20260224021119-1b2524a41372 // indirect
 	go.etcd.io/bbolt v1.5.0 // indirect
 	golang.org/x/sys v0.46.0 // indirect
-	google.golang.org/protobuf v1.36.11 // indirect
 )
 
 replace github.com/rqlite/rqlite/v10 => /repo
